@@ -164,7 +164,30 @@ def oracle_case(cid, c, out):
                 fails.append("synced position of %s is %s but the last applied entry is %s" % (name, prev_s.get(name), last[0][:3]))
         elif name in prev_s:
             fails.append("synced position recorded for %s although nothing of it was applied" % name)
-        if cls == "ord":
+        if cls == "e2e":
+            # the REAL sender's delivery sequence must follow the source order: every delivered entry is a re-delivery
+            # of an already delivered one or exactly the next new one (the Follows hypothesis of the theorem)
+            kk = 0
+            pos = {e[1]: n_ for n_, e in enumerate(ents)}
+            for op in ops:
+                f = op.split(":")
+                if f[0] != "B":
+                    continue
+                for e in f[1:]:
+                    g = e.split(".")
+                    if int(g[0]) != cl:
+                        continue
+                    j_ = pos.get(int(g[2]))
+                    if j_ is None or (int(g[1]), int(g[2]), int(g[3]), int(g[4])) != ents[j_]:
+                        fails.append("the sender delivered something that is not a source entry of c%d: %s" % (cl, e))
+                    elif j_ == kk:
+                        kk += 1
+                    elif j_ > kk:
+                        fails.append("the sender jumped over an undelivered entry of c%d: delivered position %d, next expected %d" % (cl, j_, kk))
+                        kk = j_ + 1
+            if kk != len(ents):
+                fails.append("the sender never delivered the tail of c%d (%d of %d)" % (cl, kk, len(ents)))
+        if cls in ("ord", "e2e"):
             sj, sn, sa = src[cl]
             if pj != [p for t, p in sj if t == cl] or n.get(cl, 0) != sn.get(cl, 0) or a.get(cl, "") != sa.get(cl, ""):
                 fails.append("data replayed from c%d differs from the source's data: %s / %s / %r  vs source %s / %s / %r"
@@ -192,7 +215,7 @@ def oracle(cases, impl):
     return fails, hist, nontrivial
 
 
-def run_impl(ctx, seed, n, sub, replay_file=None, engines="mem", nb=0):
+def run_impl(ctx, seed, n, sub, replay_file=None, engines="mem", nb=0, ne=0):
     d = os.path.join(ctx.run_dir, sub)
     shutil.rmtree(d, ignore_errors=True)
     os.makedirs(d)
@@ -201,7 +224,7 @@ def run_impl(ctx, seed, n, sub, replay_file=None, engines="mem", nb=0):
     if replay_file:
         cmd = "%s -replay %s -out %s -port %d" % (binp, replay_file, d, port)
     else:
-        cmd = "%s -seed %d -n %d -nb %d -engines %s -out %s -port %d" % (binp, seed, n, nb, engines, d, port)
+        cmd = "%s -seed %d -n %d -nb %d -ne %d -engines %s -out %s -port %d" % (binp, seed, n, nb, ne, engines, d, port)
     rc, out, dt = sh(cmd, cwd=d, timeout=3000)
     if rc == 3:
         # the live server (child process) did not come up or died: time/port dependent, one retry
@@ -210,6 +233,9 @@ def run_impl(ctx, seed, n, sub, replay_file=None, engines="mem", nb=0):
         return None, "INCONCLUSIVE " + out
     if rc != 0:
         return None, out
+    for line in out.split("\n"):
+        if line.startswith("SKIPPED-E"):
+            ctx.notes.append("end-to-end run skipped as inconclusive: " + line[:300])
     rc2, out2, dt2 = sh("%s < cases.tsv > model.out" % vlib.modelrun_path("Sync"), cwd=d, timeout=1200)
     if rc2 != 0:
         return None, out2
@@ -249,15 +275,15 @@ def run(ctx):
                             f.write(line if line.endswith("\n") else line + "\n")
             runs.append(dict(sub="corpus", replay=cf))
         if quick:
-            runs.append(dict(sub="fresh", n=400, nb=10, engines="mem"))
+            runs.append(dict(sub="fresh", n=400, nb=8, ne=4, engines="mem"))
         else:
-            runs.append(dict(sub="fresh", n=12000, nb=150, engines="mem,pebble,rocksdb"))
-            runs.append(dict(sub="fresh-pebble-live", n=0, nb=60, engines="pebble"))
+            runs.append(dict(sub="fresh", n=5000, nb=150, ne=60, engines="mem,pebble,rocksdb"))
+            runs.append(dict(sub="fresh-pebble-live", n=0, nb=40, ne=20, engines="pebble"))
 
     all_mism, all_fail, total, evals, hist_all, samples, distinct = [], [], 0, 0, {}, [], set()
     for r in runs:
         d, err = run_impl(ctx, ctx.seed, r.get("n", 0), r["sub"], replay_file=r.get("replay"),
-                          engines=r.get("engines", "mem"), nb=r.get("nb", 0))
+                          engines=r.get("engines", "mem"), nb=r.get("nb", 0), ne=r.get("ne", 0))
         if d is None and err.startswith("INCONCLUSIVE") and r.get("nb", 0) > 0 and not r.get("replay"):
             ctx.notes.append("live server inconclusive twice (start/ports); live cases of run %s skipped" % r["sub"])
             if r.get("n", 0) == 0:
@@ -307,7 +333,10 @@ def run(ctx):
              "re-ordering/gaps (oracle: at most once, in order). Non-trivial = at least one duplicate delivery and at least one "
              "snapshot or restart; distinct by hash of the schedule. evaluations = schedule steps executed on the real code. "
              "kind B = the same against the real grpc handlers server.ApplyRaftReqs/GetSyncedRaft of a live single-replica server "
-             "in a child process (real raft, WAL, snapshots every 5 entries), restart = SIGKILL + new process on the same directory.",
+             "in a child process (real raft, WAL, snapshots every 5 entries), restart = SIGKILL + new process on the same directory. "
+             "class e2e = the REAL sender (logSyncerSM + RemoteLogSender over gRPC) ships the source log to that server through a "
+             "recording proxy that loses requests/responses, crashes the receiver and restarts the sender; the recorded calls are "
+             "the case (oracle additionally: the sender's deliveries follow the source order).",
         histogram=hist_all,
         mismatches=len(all_mism),
         samples=samples[:4],
